@@ -11,4 +11,7 @@ CHECKS = {
  "C10": {"text": "Exhaustive over every label derivable from the documented grammar to a depth bound (160 380 labels quick, ~4.8 M thorough) x both encode flags, compared with an independent recursive-descent parser/encoder; plus grammar-random labels, single-edit mutants and arbitrary text for totality (only InvalidChordException may escape), structure of the encoding, split/join round trip and N/X sentinels. Exhaustive inside the bound, sampled beyond; found and now guards the trailing-newline defect (FX-09).",
          "design_ref": "DESIGN.md section 3, C10", "note": BASE_NOTE,
          "technique": "property-based testing / grammar-based fuzzing: exhaustive grammar enumeration + Hypothesis grammar-random, mutated and arbitrary strings vs an independent parser/encoder (differential) and a split/join round trip"},
+ "C11": {"text": "All ordered pairs over a core label set (26 k pairs quick, ~360 k thorough) plus generated near-miss pairs from an ~8 000-label pool, each checked for range {-1,0,1}, reference-only vocabulary, reflexivity, the 13 lattice implications, and value equality with a rule model computed from the independent encoder. Exhaustive on the core set, sampled on the pool.",
+         "design_ref": "DESIGN.md section 3, C11", "note": BASE_NOTE,
+         "technique": "property-based testing: exhaustive label-pair enumeration + Hypothesis near-miss pairs vs implication lattice (invariants) and an independent rule model (differential)"},
 }
